@@ -79,7 +79,15 @@ class KernExporter(object):
         num_measures = len(part.measures)
         num_notes = len(part.notes)
         num_rests = len(part.rests)
-        self.unique_voc_staff = np.unique(note_array[["voice", "staff"]], axis=0)
+        # every (voice, staff) pair that holds a note or a rest gets a spine
+        self.unique_voc_staff = np.array(
+            sorted(
+                set(
+                    (el.voice, el.staff)
+                    for el in part.iter_all(spt.GenericNote, include_subclasses=True)
+                )
+            )
+        )
         self.vocstaff_map_dict = {
             f"{self.unique_voc_staff[i][0]}-{self.unique_voc_staff[i][1]}": i
             for i in range(self.unique_voc_staff.shape[0])
